@@ -389,6 +389,30 @@ impl C05 {
                 Out::Panic(_) => ctx.count("mmap:foreign-entry-size:rejected"),
             }
         }
+        // ELF sections: an entry count whose byte extent (count x entry size) wraps
+        // around 2^32 to something that fits is still a count that leaves the tag
+        if name == "elf" && !embedded && size >= 20 && size <= t.len() {
+            // count x entry size = k * 2^32 (+ one entry where one fits)
+            let (es, n0) = [(64u32, 0x0400_0000u32), (40, 0x2000_0000), (16, 0x1000_0000), (8, 0x2000_0000), (24, 0x2000_0000)][size % 5];
+            let n = n0 + if size - 20 >= es as usize { 1 } else { 0 };
+            let mut t2 = t.clone();
+            put32(&mut t2, 8, n);
+            put32(&mut t2, 12, es);
+            put32(&mut t2, 16, 0);
+            let reg = Region::new(ctx.placement, &t2);
+            let r = catch(|| {
+                let g = DynSizedStructure::<TagHeader>::ref_from_slice(reg.as_slice()).expect("valid bytes");
+                let e = g.cast::<ElfSectionsTag>();
+                let _it = e.sections();
+            });
+            match r {
+                Out::Val(()) => ctx.violation(
+                    "elf:wrapping-entry-count-accepted",
+                    J::obj(vec![("entry_size", J::u(es as u64)), ("number_of_sections", J::u(n as u64)), ("declared_size", J::u(size as u64))]),
+                ),
+                Out::Panic(_) => ctx.count("elf:wrapping-entry-count:rejected"),
+            }
+        }
         ctx.nontrivial(mix2(mix2(k as u64, size as u64), embedded as u64));
         if ctx.want_sample() && size == KINDS[k].2 + 5 && !embedded {
             ctx.sample(J::obj(vec![("kind", J::s(name)), ("declared_size", J::u(size as u64)), ("expected", J::s(format!("{:?}", exp))), ("tag_bytes", J::S(hex_trunc(&t, 64)))]));
